@@ -87,48 +87,51 @@ c17_clamp_float!(ty: f64, wrappers: wc_f64,
 // ---- experiments
 fn tol32(v: f32, u: f32) -> f32 { (if v.abs() > u { v.abs() } else { u }) * (1.0 / 2097152.0) + 5.6e-45 }
 #[kani::proof]
-fn c17_x_wrapped_f32_finite() {
+fn c17_y_wrapped_f32_range_tol() {
     let v: f32 = kani::any(); let u: f32 = kani::any();
-    kani::assume(v.is_finite() && u.is_finite() && u > 0.0);
-    let r = v.wrapped(u);
-    assert!(r.is_finite());
-}
-#[kani::proof]
-fn c17_x_wrapped_f32_range_tol() {
-    let v: f32 = kani::any(); let u: f32 = kani::any();
-    kani::assume(v.is_finite() && u.is_finite() && u > 0.0 && (v / u).is_finite());
+    kani::assume(v.abs() <= 1e38 && u <= 1e38 && u > 0.0 && (v / u).is_finite());
     let r = v.wrapped(u);
     let tol = tol32(v, u);
     assert!(!r.is_nan());
     assert!(-tol <= r && r <= u + tol);
 }
 #[kani::proof]
-fn c17_x_pingpong_f32_range_tol() {
+fn c17_y_pingpong_f32_range_tol() {
     let v: f32 = kani::any(); let u: f32 = kani::any();
-    kani::assume(v.is_finite() && u.is_finite() && u > 0.0 && (u + u).is_finite() && (v / (u + u)).is_finite());
+    kani::assume(v.abs() <= 1e38 && u <= 5e37 && u > 0.0 && (v / (u + u)).is_finite());
     let r = v.pingpong(u);
     let tol = tol32(v, u);
     assert!(!r.is_nan());
     assert!(-tol <= r && r <= u);
 }
 #[kani::proof]
-fn c17_x_delta_angle_f32() {
+fn c17_y_wrapped_between_f32_range_tol() {
+    let v: f32 = kani::any(); let lo: f32 = kani::any(); let hi: f32 = kani::any();
+    kani::assume(v.abs() <= 1e37 && 0.0 <= lo && lo < hi && hi <= 1e37 && ((v - lo) / (hi - lo)).is_finite());
+    let r = v.wrapped_between(lo, hi);
+    let tol = tol32(v, hi);
+    assert!(!r.is_nan());
+    assert!(lo - tol <= r && r <= hi + tol);
+}
+#[kani::proof]
+fn c17_y_delta_angle_f32() {
     let s: f32 = kani::any(); let t: f32 = kani::any();
     kani::assume(s.abs() <= 65536.0 && t.abs() <= 65536.0);
     let r = s.delta_angle(t);
     assert!(-core::f32::consts::PI < r && r <= core::f32::consts::PI);
 }
 #[kani::proof]
-fn c17_x_delta_angle_degrees_f32() {
-    let s: f32 = kani::any(); let t: f32 = kani::any();
-    kani::assume(s.abs() <= 65536.0 && t.abs() <= 65536.0);
-    let r = s.delta_angle_degrees(t);
-    assert!(-180.0 < r && r <= 180.0);
+fn c17_y_wrapped_2pi_f32() {
+    let v: f32 = kani::any();
+    kani::assume(v.abs() <= 1e38);
+    let r = v.wrapped_2pi();
+    let tol = tol32(v, core::f32::consts::TAU);
+    assert!(-tol <= r && r <= core::f32::consts::TAU + tol);
 }
 #[kani::proof]
-fn c17_x_wrapped_2pi_f32() {
+fn c17_y_wrapped_2pi_f32_small() {
     let v: f32 = kani::any();
-    kani::assume(v.is_finite());
+    kani::assume(v.abs() <= 65536.0);
     let r = v.wrapped_2pi();
     let tol = tol32(v, core::f32::consts::TAU);
     assert!(-tol <= r && r <= core::f32::consts::TAU + tol);
